@@ -138,3 +138,53 @@ Definition a_unreg (a : aworld) (h : nat) : Prop :=
   end.
 Definition not_register_of (h : nat) (o : op) : bool :=
   match o with ORegister h' _ => negb (h' =? h) | _ => true end.
+
+(* ====================================================================== ordered abstract machine
+   The abstract machine extended with, per module and position, the ORDER in which torch will dispatch
+   the registered hook objects (still no handles / ids / finalizers): a successful registration puts the
+   object first (prepend) or last; deregistration / deletion removes it and keeps the order of the rest.
+   spec_call is then the complete, exact event sequence of a module call. *)
+Definition ins (prepend : bool) (h : nat) (l : list nat) : list nat := if prepend then h :: l else l ++ [h].
+Definition ord := list (list nat * list nat).
+Definition ord_lst (o : ord) (m : nat) (q : bool) : list nat :=
+  match nth_error o m with Some pq => if q then fst pq else snd pq | None => [] end.
+Definition ord_insert (o : ord) (m : nat) (c : cfg) (h : nat) : ord :=
+  match nth_error o m with
+  | Some pq => upd o m (if c_pre c then ins (c_pre_prepend c) h (fst pq) else fst pq,
+                        if c_post c then ins (c_post_prepend c) h (snd pq) else snd pq)
+  | None => o
+  end.
+Definition ord_remove (o : ord) (h : nat) : ord :=
+  map (fun pq => (filter (fun x => negb (x =? h)) (fst pq), filter (fun x => negb (x =? h)) (snd pq))) o.
+
+Record oworld := mkOW { o_abs : aworld; o_ord : ord }.
+
+Definition ostep (ow : oworld) (o : op) : oworld :=
+  let a := o_abs ow in
+  let a' := fst (astep a o) in
+  mkOW a'
+    (match o with
+     | ORegister h _ =>
+         match nth_error (a_hooks a) h, nth_error (a_hooks a') h with
+         | Some k, Some k' =>
+             match a_reg k, a_reg k' with
+             | None, Some m' => ord_insert (o_ord ow) m' (a_cfg k) h      (* this call registered it *)
+             | _, _ => o_ord ow
+             end
+         | _, _ => o_ord ow
+         end
+     | ODeregister h => ord_remove (o_ord ow) h
+     | ODelete h => ord_remove (o_ord ow) h
+     | _ => o_ord ow
+     end).
+
+Fixpoint orun (ow : oworld) (ops : list op) : oworld :=
+  match ops with [] => ow | o :: tl => orun (ostep ow o) tl end.
+
+Definition o0 (n : nat) : oworld := mkOW (a0 n) (repeat ([], []) n).
+
+Definition spec_call (ow : oworld) (m : nat) (fail : bool) : list event :=
+  let a := o_abs ow in
+  flat_map (fun h => if a_fires_pre a h m then [EFire h (a_tag a h true)] else []) (ord_lst (o_ord ow) m true)
+  ++ EFwd m ::
+  flat_map (fun h => if a_fires_post a h m fail then [EFire h (a_tag a h false)] else []) (ord_lst (o_ord ow) m false).
